@@ -20,6 +20,9 @@ type Fn struct {
 	Params []string
 	Body   []*Node
 }
+// Comp is a computed value (&name = expr): its expression is evaluated at every read, in a
+// fresh scope whose parent is the scope that owns the variable.
+type Comp struct{ Expr *Node }
 type Null struct{}
 type Val interface{} // int64, float64, string, Null, *Arr, *Dict, *Fn
 
@@ -70,6 +73,7 @@ const (
 	KReturn
 	KTemplate
 	KDice // XdY with optional keep/drop modifier and min/max clamp (deterministic modes only)
+	KCompDef // &name = expr (statement position only)
 )
 
 type Node struct {
@@ -117,7 +121,7 @@ var binLevel = map[string]int{
 
 func level(n *Node) int {
 	switch n.K {
-	case KAssign, KItemSet, KAttrSet:
+	case KAssign, KItemSet, KAttrSet, KCompDef:
 		return LRoot
 	case KSlice:
 		return LSlice
@@ -366,6 +370,8 @@ func (p *printer) expr(n *Node) string {
 		return out
 	case KAssign:
 		return n.S + p.sp() + "=" + p.sp() + p.expr(n.Kids[0])
+	case KCompDef:
+		return "&" + n.S + p.sp() + "=" + p.sp() + p.expr(n.Kids[0])
 	case KItemSet:
 		return p.at(n.Kids[0], LSlice) + "[" + p.sp() + p.expr(n.Kids[1]) + "]" + p.sp() + "=" + p.sp() + p.expr(n.Kids[2])
 	case KAttrSet:
@@ -656,6 +662,34 @@ func dictKey(v Val) string {
 	return ""
 }
 
+// lookupF is lookup that also reports the frame that supplied the value.
+func (in *Interp) lookupF(name string) (Val, *frame) {
+	for f := in.top; f != nil; f = f.caller {
+		if v, ok := f.vars[name]; ok {
+			if _, isNull := v.(Null); !isNull {
+				if f != in.top && f.caller != nil {
+					decline("name resolved in an intermediate caller")
+				}
+				return v, f
+			}
+		}
+	}
+	return Null{}, nil
+}
+
+// compute evaluates a computed value read from the scope owner.
+func (in *Interp) compute(c *Comp, owner *frame) Val {
+	if in.top.depth > 20 {
+		decline("depth")
+	}
+	fr := &frame{vars: map[string]Val{}, caller: owner, depth: in.top.depth + 1}
+	saved := in.top
+	in.top = fr
+	defer func() { in.top = saved }()
+	in.tick()
+	return in.eval(c.Expr)
+}
+
 func (in *Interp) lookup(name string) Val {
 	for f := in.top; f != nil; f = f.caller {
 		if v, ok := f.vars[name]; ok {
@@ -906,7 +940,15 @@ func (in *Interp) eval(n *Node) Val {
 	case KBool:
 		return n.I
 	case KVar:
-		return in.lookup(n.S)
+		v, owner := in.lookupF(n.S)
+		if c, ok := v.(*Comp); ok {
+			return in.compute(c, owner)
+		}
+		return v
+	case KCompDef:
+		c := &Comp{Expr: n.Kids[0]}
+		in.top.vars[n.S] = c
+		return c
 	case KParen:
 		return in.eval(n.Kids[0])
 	case KDice:
